@@ -8,6 +8,7 @@ import (
 
 	"git.defalsify.org/vise.git/cache"
 	"git.defalsify.org/vise.git/engine"
+	"git.defalsify.org/vise.git/resource"
 	"git.defalsify.org/vise.git/state"
 	"git.defalsify.org/vise.git/vm"
 
@@ -166,6 +167,7 @@ func c04History(mode string, inputs []string, visit func(*ref.Nav)) (sig, msg st
 	var s *app.Session
 	// mode = long-lived | persisted, optionally +flush (Persister.WithFlush) and/or +reset
 	// (engine.Config.ResetOnEmptyInput: an empty input restarts the session at the entry node)
+	origMode := mode
 	reset := strings.Contains(mode, "+reset")
 	flush := strings.Contains(mode, "+flush")
 	a.First = strings.Contains(mode, "+first") // engine.WithFirst with a function that does nothing
@@ -177,6 +179,17 @@ func c04History(mode string, inputs []string, visit func(*ref.Nav)) (sig, msg st
 		s.Open = app.MemStore()
 		s.FinishOnError = true
 		s.Flush = flush
+	}
+	refusing := strings.Contains(origMode, "+refusingfirst")
+	if refusing {
+		// a first function that refuses the request when the input is "8" (sets TERMINATE, as an
+		// authentication check would): such a request leaves the position where it is
+		s.First = func(ctx context.Context, sym string, input []byte) (resource.Result, error) {
+			if string(input) == "8" {
+				return resource.Result{Content: "no", FlagSet: []uint32{6}}, nil
+			}
+			return resource.Result{}, nil
+		}
 	}
 	m := &ref.Nav{}
 	r := s.Request([]byte(""))
@@ -205,6 +218,15 @@ func c04History(mode string, inputs []string, visit func(*ref.Nav)) (sig, msg st
 			target, offered = "_", true
 		} else if offered && target == m.Top() {
 			offered = false
+		}
+		if refusing && in == "8" {
+			r := s.Request([]byte(in))
+			steps++
+			p, i, ok := pos()
+			if r.Panic != "" || r.ExecErr != "" || !ok || p != m.Path() || i != m.Idx {
+				return "refused-request-moves-engine", fmt.Sprintf("%s request %d input %q refused by the first function at %s@%d: %s%s; now at %s@%d", origMode, k+1, in, m.Path(), m.Idx, r.Panic, r.ExecErr, p, i), steps
+			}
+			continue
 		}
 		if reset && in == "" {
 			*m = ref.Nav{}
@@ -352,11 +374,14 @@ func c04Run(c *mc.Ctx) {
 	}
 	// part B
 	a := navigatorApp()
-	for _, mode := range []string{"long-lived", "persisted", "persisted+flush", "persisted+first", "long-lived+reset", "persisted+reset"} {
+	for _, mode := range []string{"long-lived", "persisted", "persisted+flush", "persisted+first", "persisted+refusingfirst", "long-lived+reset", "persisted+reset"} {
 		inputs := a.Inputs
 		hdepth := hdepth
 		if strings.Contains(mode, "+reset") {
 			inputs = append(append([]string{}, inputs...), "")
+		}
+		if strings.Contains(mode, "+refusingfirst") {
+			inputs = append(append([]string{}, inputs...), "8")
 		}
 		if strings.Contains(mode, "+") && c.Thorough() {
 			hdepth--
